@@ -13,4 +13,4 @@ def run(report):
     report.assume("nullability obligations of the PEP 8 visitor (the bracket/suite stack discipline of _indentation_tos) "
                   "are not discharged deductively; totality rests on the bounded stand-in, where the crash sites of the "
                   "unchanged tree are listed as known findings")
-    run_bounded(report, ['pep8', 'blk'])
+    run_bounded(report, ['pep8', 'blk'], scale=0.6)
